@@ -23,6 +23,12 @@ def vstructure_rules(rep, prog):
     loops = sorted([(k, v) for k, v in S.loopinfo.items() if v["func"] == q], key=lambda kv: kv[0][1])
     cartesian_dtype(rep, prog, [q])
     if len(loops) != 2:
+        # the same loops written as one comprehension: [(i, c, j) ... for c in colliders for (i, j) in pairs if ...]
+        S = Sym(prog)
+        S.desugar = True
+        summ, _ = run_function(S, f)
+        loops = sorted([(k, v) for k, v in S.loopinfo.items() if v["func"] == q], key=lambda kv: kv[0][1])
+    if len(loops) != 2:
         rep.unk("VS.shape", fwhere(f), "vstructures is no longer a loop over colliders with a loop over parent pairs; the v-structure rules do not read this idiom")
         return
     (lo, outer), (li, inner) = loops
@@ -45,6 +51,7 @@ def vstructure_rules(rep, prog):
                     cnt = mono[0]
         if cnt is not None:
             S2 = Sym(prog, inline=lambda g: g.module.name == "sempler.utils" and g.qname != q)
+            S2.desugar = getattr(S, "desugar", False)
             run_function(S2, f)
             it2 = [v for k, v in S2.loopinfo.items() if v["func"] == q and k[1] == lo[1]][0]["iter"]
             cond2 = it2[1][2][0]
